@@ -1,6 +1,6 @@
 """Regenerate coq/values/Gen/*.v from /repo (write-if-changed)."""
 from .framework import COQ, write_if_changed
-from .translate import validators_tbl
+from .translate import validators_tbl, validators_skel
 
 
 def regen():
@@ -12,6 +12,10 @@ def regen():
         write_if_changed(d / "ValidatorTbl.v", validators_tbl.render())
     except Exception as e:  # TranslateError or anything else: fail closed
         errs.append(("ValidatorTbl.v", f"{type(e).__name__}: {e}"))
+    try:
+        validators_skel.check()
+    except Exception as e:
+        errs.append(("(statement skeleton of validators.py)", f"{type(e).__name__}: {e}"))
     try:
         write_if_changed(d / "CodecGuards.v", validators_tbl.render_codec())
     except Exception as e:
